@@ -184,12 +184,18 @@ class Bag(Factory, Container):
 
         elif self.range == "N":
             try:
+                # a number, not something float() happens to parse ("3.5", b"300")
+                assert isinstance(q, numbers.Real)
                 q = floatOrNan(q)
             except BaseException:
                 raise TypeError(f"function return value ({q}) must be a number for range {self.range}")
 
         else:
             try:
+                # a sequence of numbers, not a string or bytes that can be iterated ("35" is not the vector (3, 5))
+                assert not isinstance(q, (basestring, bytes))
+                q = tuple(q)
+                assert all(isinstance(qi, numbers.Real) for qi in q)
                 q = tuple(floatOrNan(qi) for qi in q)
                 assert len(q) == self.dimension
             except BaseException:
